@@ -16,6 +16,7 @@ import (
 	"github.com/containerd/nri/pkg/adaptation"
 	"github.com/containerd/nri/pkg/api"
 	"github.com/containerd/nri/pkg/verifhook"
+	"github.com/containerd/ttrpc"
 	"google.golang.org/protobuf/proto"
 	"google.golang.org/protobuf/reflect/protoreflect"
 
@@ -40,7 +41,7 @@ const (
 	gapMax = ReqTimeout * 2 / 5
 	// leaveGraceMs: a plugin that leaves sooner than this after answering may be taken for one
 	// that disconnected during the request (see the oracle)
-	leaveGraceMs = 5
+	leaveGraceMs = 20
 	// stopBound: how long Adaptation.Stop() may take at the end of a case (typical: < 1 ms)
 	stopBound = 3 * time.Second
 	mainTag   = "main"
@@ -71,19 +72,20 @@ type plug struct {
 func (pl *plug) idx2() string { return fmt.Sprintf("%02d", pl.spec.Idx) }
 
 type fixture struct {
-	c       C07Case
-	rt      *fx.Runtime
-	dir     string
-	plugs   []*plug // invocation order
-	t0      time.Time
-	mu      sync.Mutex
-	log     []logEntry
-	release chan struct{}
-	relOnce sync.Once
-	w       fx.ActiveWatcher
-	ldir    string         // scratch directory of the launched plugins ("" if there are none)
-	upd     map[int]int    // unsolicited UpdateContainers calls the runtime has seen, by plugin
-	pressWG sync.WaitGroup // the plugins' pending UpdateContainers calls
+	c         C07Case
+	rt        *fx.Runtime
+	dir       string
+	plugs     []*plug // invocation order
+	t0        time.Time
+	mu        sync.Mutex
+	log       []logEntry
+	release   chan struct{}
+	relOnce   sync.Once
+	w         fx.ActiveWatcher
+	ldir      string         // scratch directory of the launched plugins ("" if there are none)
+	slowProbe bool           // a probe during the join phases took nearly a request timeout
+	upd       map[int]int    // unsolicited UpdateContainers calls the runtime has seen, by plugin
+	pressWG   sync.WaitGroup // the plugins' pending UpdateContainers calls
 }
 
 func (f *fixture) releaseAll() { f.relOnce.Do(func() { close(f.release) }) }
@@ -375,9 +377,15 @@ type joinVerdict struct {
 // adaptation is wedged (its lock is held for good).
 func (f *fixture) probe(bound time.Duration) (err error, wedged bool) {
 	done := make(chan error, 1)
+	start := time.Now()
 	go func() { done <- f.rt.Probe() }()
 	select {
 	case err := <-done:
+		if time.Since(start) > ReqTimeout*4/5 {
+			// a probe goes through every member: one that took this long may have cost a healthy
+			// plugin its membership (dropped for being late, by design)
+			f.slowProbe = true
+		}
 		return err, false
 	case <-time.After(bound):
 		return nil, true
@@ -417,6 +425,10 @@ func (f *fixture) joinFirst(pl *plug, bound time.Duration) (jv joinVerdict) {
 		if wedged {
 			jv.timeFail = fmt.Sprintf("clause 1: a request issued while plugin %02d was failing during its %s (%s) did not return within %v", pl.spec.Idx, pl.join.Phase, describe(pl.join.Fault), bound)
 			jv.stuck = true
+			return
+		}
+		if f.slowProbe {
+			jv.overload = "a probe during the join phase took nearly a request timeout"
 			return
 		}
 		if err != nil {
@@ -851,8 +863,8 @@ func validate(c C07Case) string {
 			}
 		}
 		if p.Fault.Kind == "updrop" {
-			if p.Launched || p.Fault.HoldMs < 1 || p.Fault.HoldMs > 250 {
-				return "updrop needs an in-process plugin and a hold of 1..250 ms"
+			if p.Launched || p.Fault.HoldMs < 1 || p.Fault.HoldMs > 150 {
+				return "updrop needs an in-process plugin and a hold of 1..150 ms"
 			}
 			okHolder := false
 			for _, h := range c.Plugins {
@@ -927,6 +939,9 @@ func validate(c C07Case) string {
 		if k != "" && sizeOf(k) == 0 {
 			return "unknown request size class"
 		}
+	}
+	if _, ok := runtimeOptions(c.RtOpts); !ok {
+		return "unknown runtime option set"
 	}
 	for _, k := range []string{c.Ctx, c.FollowCtx} {
 		switch k {
@@ -1003,6 +1018,9 @@ func runOnce(c C07Case) (v verdict) {
 			return
 		}
 		opts = append(opts, adaptation.WithPluginPath(filepath.Join(f.ldir, "plugins")), adaptation.WithPluginConfigPath(filepath.Join(f.ldir, "conf")))
+	}
+	if o, ok := runtimeOptions(c.RtOpts); ok && o != nil {
+		opts = append(opts, o)
 	}
 	rt, err := fx.NewRuntime(opts...)
 	if err != nil {
@@ -1251,6 +1269,9 @@ func runOnce(c C07Case) (v verdict) {
 	if nfaults == 0 {
 		v.classes = append(v.classes, "first-fault:none")
 	}
+	if c.RtOpts != "" {
+		v.classes = append(v.classes, "rt-opts", "rt-opts:"+c.RtOpts)
+	}
 	v.classes = append(v.classes, "ctx:"+ctxName(c.Ctx), "follow-ctx:"+ctxName(c.FollowCtx), "req-size:"+sizeName(c.ReqSize), "follow-size:"+sizeName(c.FollowSize))
 	v.classes = append(v.classes, "req:"+c.Req, "follow:"+c.Follow, fmt.Sprintf("faults:%d", nfaults), fmt.Sprintf("plugins:%d", n))
 	if c.Req == "event" {
@@ -1431,7 +1452,7 @@ func runOnce(c C07Case) (v verdict) {
 					// up, e.g. by the widening hook between the two frames of a large response).
 					// It did disconnect during the request: the statement's first sentence covers
 					// that outcome, so it is accepted and counted, and the plugin is judged as a
-					// disconnected one. From 5 ms on the answer has to stand.
+					// disconnected one. From 20 ms on the answer has to stand.
 					isStruck, isDuring = true, true
 					v.lenient = append(v.lenient, "answer-lost-plugin-left-at-once")
 				} else {
@@ -1554,6 +1575,7 @@ func runOnce(c C07Case) (v verdict) {
 			allowed bool // this plugin may have cost one request timeout
 			must    bool // ... and certainly did (hang)
 			stall   time.Duration
+			hold    time.Duration // the plugin entered here holds the request on purpose
 		}
 		marks := []mark{{at: mainStart}}
 		for _, pl := range f.plugs {
@@ -1568,7 +1590,7 @@ func runOnce(c C07Case) (v verdict) {
 					m := mark{at: e.At, allowed: k == "hang" || (k == "garbage" && pl.rep.Consumed), must: k == "hang"}
 					for _, s := range f.plugs {
 						if sf := s.spec.Fault; sf.Kind == "updrop" && sf.HoldIdx == pl.spec.Idx {
-							m.stall += time.Duration(sf.HoldMs) * time.Millisecond
+							m.hold += time.Duration(sf.HoldMs) * time.Millisecond
 						}
 					}
 					marks = append(marks, m)
@@ -1577,7 +1599,20 @@ func runOnce(c C07Case) (v verdict) {
 		}
 		marks = append(marks, mark{at: mainStart + res.dur})
 		for i := 0; i+1 < len(marks); i++ {
-			g := marks[i+1].at - marks[i].at - marks[i].stall
+			if marks[i].hold > 0 {
+				// a plugin that holds the request on purpose has that much less room before the
+				// timeout: its whole round trip (the delivery lies in the gap before) must stay
+				// clearly below it
+				prev := time.Duration(0)
+				if i > 0 {
+					prev = marks[i].at - marks[i-1].at - marks[i-1].stall - marks[i-1].hold
+				}
+				if raw := marks[i+1].at - marks[i].at; raw+prev > ReqTimeout*4/5 {
+					v.overload = fmt.Sprintf("the plugin holding the request for %v took %v (+%v before it)", marks[i].hold, raw, prev)
+					return
+				}
+			}
+			g := marks[i+1].at - marks[i].at - marks[i].stall - marks[i].hold
 			if marks[i].allowed && (marks[i].must || g >= ReqTimeout) {
 				g -= ReqTimeout
 			}
@@ -1779,6 +1814,10 @@ func runOnce(c C07Case) (v verdict) {
 				}
 			}
 		}
+		if f.slowProbe {
+			v.overload = "a probe during the second join took nearly a request timeout"
+			return
+		}
 		if startErr != nil {
 			hist["stacks"] = allStacks()
 			v.timeFail = fmt.Sprintf("clause 2: healthy plugin %02d, connecting after plugin %02d had failed during its %s (%s), was not active %v later (%v): registrations are wedged",
@@ -1908,6 +1947,34 @@ func stallCost(pl *plug, reqStart time.Time) time.Duration {
 		return d
 	}
 	return 0
+}
+
+// runtimeOptions: the ttRPC options a runtime may hand to the adaptation for the connections of
+// its plugins. All of them are pass-through: they must not change anything. "onclose" (a no-op
+// client close handler) is accepted for probing only, it is not generated.
+func runtimeOptions(set string) (adaptation.Option, bool) {
+	passClient := func(ctx context.Context, req *ttrpc.Request, resp *ttrpc.Response, _ *ttrpc.UnaryClientInfo, invoke ttrpc.Invoker) error {
+		return invoke(ctx, req, resp)
+	}
+	passServer := func(ctx context.Context, unmarshal ttrpc.Unmarshaler, _ *ttrpc.UnaryServerInfo, method ttrpc.Method) (interface{}, error) {
+		return method(ctx, unmarshal)
+	}
+	switch set {
+	case "":
+		return nil, true
+	case "client-interceptor":
+		return adaptation.WithTTRPCOptions([]ttrpc.ClientOpts{ttrpc.WithUnaryClientInterceptor(passClient)}, nil), true
+	case "client-chain":
+		return adaptation.WithTTRPCOptions([]ttrpc.ClientOpts{ttrpc.WithChainUnaryClientInterceptor(passClient, passClient)}, nil), true
+	case "server-interceptor":
+		return adaptation.WithTTRPCOptions(nil, []ttrpc.ServerOpt{ttrpc.WithUnaryServerInterceptor(passServer)}), true
+	case "client+server":
+		return adaptation.WithTTRPCOptions([]ttrpc.ClientOpts{ttrpc.WithUnaryClientInterceptor(passClient)},
+			[]ttrpc.ServerOpt{ttrpc.WithUnaryServerInterceptor(passServer)}), true
+	case "onclose":
+		return adaptation.WithTTRPCOptions([]ttrpc.ClientOpts{ttrpc.WithOnClose(func() {})}, nil), true
+	}
+	return nil, false
 }
 
 func sizeName(k string) string {
